@@ -247,7 +247,7 @@ func main() {
 	runner.Main(runner.Config{
 		ID:    "C16",
 		Level: "model_checking",
-		Rule:  "stateless model checking of the real ValidatorContext.Validate under a controlled scheduler (instrumented build): for each scenario (build x damage x consumer x wound-channel capacity {1,2,1024} x canceller goroutine) every interleaving of the main, validate-worker, consumer, per-file relay and aggregator goroutines and of the cancellation instant is enumerated by preemption-bounded DFS with happens-before state caching; oracle per execution: Validate returned (no deadlock, no step-budget overrun) and a nil fail-fast verdict only on an undamaged directory. Non-trivial = scenario with damage, or with a canceller.",
+		Rule:  "stateless model checking of the real ValidatorContext.Validate under a controlled scheduler (instrumented build): for each scenario (build x damage (none, first/last/all files, directory gone, symlink gone, directory and symlink gone, root gone) x consumer x wound-channel capacity {1,2,1024} x canceller goroutine) every interleaving of the main, validate-worker, consumer, per-file relay and aggregator goroutines and of the cancellation instant is enumerated by preemption-bounded DFS with happens-before state caching; oracle per execution: Validate returned (no deadlock, no step-budget overrun) and a nil fail-fast verdict only on an undamaged directory. Non-trivial = scenario with damage, or with a canceller.",
 		Assumptions: []string{
 			"code between two visible operations (channel ops, select, mutex, context cancellation) is atomic; unsynchronised accesses are out of scope here (race pass of C15)",
 			"wound channel capacity is scaled by overlay (make(chan *Wound, 1024) -> 1 or 2) so that 'more wounds than the channel holds' needs 2-3 wounds; the unscaled capacity is explored as well",
